@@ -1,38 +1,38 @@
 SPECIFICATION Spec
 CONSTANTS
-  Sessions = {"M1"}
-  Legacy = {}
-  InitOn = {"M1"}
+  Sessions = {"L1", "M1"}
+  Legacy = {"L1"}
+  InitOn = {}
   InitSub = {}
-  Kinds = {"tools"}
+  Kinds = {"resources", "templates"}
   NotifOf <- NotifStd
   Uris = {}
   Want <- WantAll
   CapOff = {}
   CapMode <- ModeInferred
-  InitSize <- Size3
-  MaxSize = 3
-  Dirs = {"mod"}
+  InitSize <- SizeR1T0
+  MaxSize = 1
+  Dirs = {"add", "rm"}
   SendGate = "configured"
-  TTLPos = TRUE
+  TTLPos = FALSE
   D = 0
   MaxTime = 0
-  MaxChanges = 2
+  MaxChanges = 4
   MaxUpdates = 0
-  MaxCalls = 2
-  NPages = 2
+  MaxCalls = 0
+  NPages = 1
   ListenOwns = TRUE
   ResubRace = TRUE
   GenCheck = TRUE
   ColdBump = TRUE
   ModernUnsub = FALSE
-  ForeignUnsub = FALSE
+  ForeignUnsub = TRUE
   Listeners = {}
   MaxListens = 0
   FailUndo = TRUE
   Stepwise = FALSE
   Gates = FALSE
   GateNames = {"inv", "usr", "put"}
-  ClientFirst = FALSE
+  ClientFirst = TRUE
 INVARIANTS TypeOK NeverLost OnlyEntitled NoneWhenDisabled UpdatedExactlySubscribers Fresh ForgottenOnClose MapsOnlySessions
 CHECK_DEADLOCK FALSE
